@@ -9,6 +9,7 @@ import IcingaProofs.C08.Lemmas
 import IcingaProofs.C08.CalLemmas
 import IcingaProofs.C08.Nested
 import IcingaProofs.C08.CalCore
+import IcingaProofs.C08.Tick
 
 namespace Icinga.C08
 
@@ -172,6 +173,163 @@ theorem updateRegion_window (p : Period) (u : UpdIn) (b e : Int) :
       vb ≤ b ∧ e ≤ ve := by
   have := region_covers ({ p with segs := [] } : Period) u b e
   simpa [Period.updateRegion, Period.covers] using this
+
+
+/-! ## Activation, PurgeSegments and the 300 s update timer -/
+
+/-- **start_spec.**  `TimePeriod::Start` (clearing pre-fill of `[now, now + 24 h]`): the observation
+    satisfies the update specification, for every previous state, inputs and clock value. -/
+theorem start_spec (p : Period) (u : UpdIn) (now : Int) (ts : List Int)
+    (hown : ∀ s ∈ u.own, s.1 < s.2)
+    (hinc : ∀ L ∈ u.incs, ∀ s ∈ L, s.1 < s.2) (hexc : ∀ L ∈ u.excs, ∀ s ∈ L, s.1 < s.2) :
+    (p.start u now) = p.updateRegion u now (now + 86400) true ∧
+    specUpdate (observe p u now (now + 86400) true ts) = none :=
+  ⟨rfl, updateRegion_spec p u now (now + 86400) true ts (by omega) (by intro h; cases h) hown hinc hexc⟩
+
+/-- **purge_keeps_future.**  `PurgeSegments(c)` never changes an answer from the cut-off on: for every
+    period and every `t ≥ c`, `IsInside(t)` is the same before and after — although the window's
+    begin moves forward and whole segments are dropped.  (Before the cut-off the answers become
+    "inside": outside the window.) -/
+theorem purge_keeps_future (p : Period) (c t : Int) (ht : c ≤ t) :
+    (p.purge c).isInside t = p.isInside t := by
+  have hin := purge_inside p c t ht
+  have hve := purge_ve p c
+  have hvb := purge_vb p c
+  unfold Period.isInside
+  rw [hve, hvb, hin]
+  cases p.vb with
+  | none => rfl
+  | some x =>
+    cases p.ve with
+    | none => rfl
+    | some y =>
+      simp only
+      by_cases hx : x < c
+      · simp only [hx, if_true]
+        have h1 : ¬ t < c := by omega
+        have h2 : ¬ t < x := by omega
+        simp [h1, h2]
+      · simp [hx]
+
+/-- the purged period differs before the cut-off: 09–17 was inside at 10, after purging at 18 the
+    instant 10 lies outside the window (hence "inside"), 19 keeps its answer -/
+example :
+    let p : Period := { segs := [(9, 17), (20, 30)], vb := some 0, ve := some 40 }
+    (p.purge 18).segs = [(20, 30)] ∧ (p.purge 18).vb = some 18 ∧ p.isInside 8 = false ∧
+      (p.purge 18).isInside 8 = true ∧ (p.purge 18).isInside 19 = false := by decide
+
+/-- **timerTick_spec.**  One run of `UpdateTimerHandler` on one period — `PurgeSegments(now − 1 h)`
+    followed by the non-clearing `UpdateRegion(valid_end, now + 24 h)` — for every period state,
+    update inputs, clock value and list of instants: the window afterwards reaches from at most
+    `now` (or the old begin, if later) to at least `now + 24 h`; every instant from the cut-off on
+    is "inside" outside the window and follows the property's formula inside it, where the
+    segments stored BEFORE the run count as own outside the refreshed region
+    `[old valid_end, now + 24 h)`; and a run that has nothing to refresh changes no answer.
+    Only hypothesis: all segments are non-empty. -/
+theorem timerTick_spec (p : Period) (u : UpdIn) (now : Int) (ts : List Int)
+    (hS : ∀ s ∈ p.segs, s.1 < s.2) (hown : ∀ s ∈ u.own, s.1 < s.2)
+    (hinc : ∀ L ∈ u.incs, ∀ s ∈ L, s.1 < s.2) (hexc : ∀ L ∈ u.excs, ∀ s ∈ L, s.1 < s.2) :
+    specTick (observeTick p u now ts) = none :=
+  timerTick_core p u now ts hS hown hinc hexc
+
+/-- Non-vacuity: the period was filled for [100000, 186400] with 09–17-like ranges; the timer runs at
+    105000 (cut-off 101400): the segment that ended at 101000 is dropped, the window is extended to
+    191400 with a new own segment, an excluded period cuts it. -/
+example :
+    let p : Period := { segs := [(100500, 101000), (120000, 150000)], vb := some 100000, ve := some 186400 }
+    let u : UpdIn := { prefer := true, own := [(186400, 190000)], incs := [], excs := [[(188000, 189000)]] }
+    (p.tick u 105000).segs = [(120000, 150000), (186400, 188000), (189000, 190000)] ∧
+    (p.tick u 105000).vb = some 101400 ∧ (p.tick u 105000).ve = some 191400 ∧
+    (observeTick p u 105000 [100600, 101400, 130000, 187000, 188500, 191401]).upd.queries =
+      [(100600, true), (101400, false), (130000, true), (187000, true), (188500, false), (191401, true)] := by decide
+
+/-- The tick spec rejects a wrong trace: the running segment 120000–150000 was dropped by the purge
+    (what `end >= cutoff` ⇒ `begin >= cutoff` would do) and the period flipped to "outside". -/
+example :
+    specTick { upd := { prefer := true, clear := false, b := 186400, e := 191400, own := [], incs := [], excs := [],
+                        preSegs := [(120000, 150000)], preVe := some 186400, vb := some 130000, ve := some 191400,
+                        postSegs := [], queries := [(140000, false)] },
+               cutoff := 130000, now := 133600, preVb := some 100000 } = some .tickInside := by decide
+
+/-! ## Agreement with the referenced periods themselves (F-C08c)
+
+  Full statement the property asks for (NOT true of the code, see `start_order_counterexample`):
+
+      at every instant in the window of a period and of the periods it refers to, its answer
+      follows the formula with the referenced periods' own current answers
+      (`specRefs … = none` with `incNow`/`excNow` = `IsInside(t)` of the referenced periods now).
+
+  `Merge` works on the segments the referenced period has materialised at that moment.  A
+  period that is started (or extended by the timer) BEFORE a period it refers to merges
+  nothing for the region concerned and keeps ignoring the include / exclude there until its own
+  next effective update — which, when its own segments reach further than a day ahead
+  (ScriptFunc returns whole days), is up to a day away. -/
+
+/-- **refs_agree_partial.**  Exact extra hypothesis: the referenced periods answer now, at `t`, what
+    their merged segment lists said (`hi`, `hx`) — i.e. they had been computed for `t` before this
+    period merged them and have not changed since.  Then, for every effective update, the answer
+    agrees with the referenced periods themselves. -/
+theorem refs_agree_partial (p : Period) (u : UpdIn) (b e : Int) (clear : Bool) (t : Int)
+    (incNow excNow : List Bool)
+    (hbe : b ≤ e)
+    (hS : clear = false → ∀ s ∈ p.segs, s.1 < s.2) (hown : ∀ s ∈ u.own, s.1 < s.2)
+    (hinc : ∀ L ∈ u.incs, ∀ s ∈ L, s.1 < s.2) (hexc : ∀ L ∈ u.excs, ∀ s ∈ L, s.1 < s.2)
+    (hnoop : (observe p u b e clear [t]).noop = false)
+    (hi : incNow.any id = u.incs.any (fun L => inside L t))
+    (hx : excNow.any id = u.excs.any (fun L => inside L t)) :
+    specRefs (observe p u b e clear [t]) incNow excNow (t, (p.updateRegion u b e clear).isInside t) = none := by
+  have h := updateRegion_spec p u b e clear [t] hbe hS hown hinc hexc
+  unfold specUpdate at h
+  rw [hnoop] at h
+  simp only [Bool.false_eq_true, if_false] at h
+  have hex : expectWithRefs (observe p u b e clear [t]) (incNow.any id) (excNow.any id) t =
+      expectInside (observe p u b e clear [t]) t := by
+    unfold expectWithRefs ownPart expectInside
+    rw [hnoop, hi, hx]
+    simp [observe]
+  unfold specRefs
+  cases hw : specWindow (observe p u b e clear [t]) with
+  | some c => rw [hw] at h; cases h
+  | none =>
+    rw [hw] at h
+    have hq : (observe p u b e clear [t]).queries = [(t, (p.updateRegion u b e clear).isInside t)] := rfl
+    rw [hq] at h
+    simp only [specQueries] at h
+    have hq2 : specQuery (observe p u b e clear [t]) (t, (p.updateRegion u b e clear).isInside t) = none := by
+      cases h2 : specQuery (observe p u b e clear [t]) (t, (p.updateRegion u b e clear).isInside t) with
+      | none => rfl
+      | some c => rw [h2] at h; cases h
+    unfold specQuery at hq2
+    cases hvb : (observe p u b e clear [t]).vb with
+    | none => rfl
+    | some vb =>
+      cases hve : (observe p u b e clear [t]).ve with
+      | none => rfl
+      | some ve =>
+        rw [hvb, hve] at hq2
+        simp only at hq2 ⊢
+        by_cases hout : t < vb ∨ t > ve
+        · simp [hout]
+        · simp only [hout, if_false] at hq2 ⊢
+          rw [hex]
+          by_cases heq : (p.updateRegion u b e clear).isInside t = expectInside (observe p u b e clear [t]) t
+          · simp [heq]
+          · simp [heq] at hq2
+
+/-- **start_order_counterexample.**  The period P (own 0–200000, excludes B, B = 100–200) is started
+    before B: B has no segments yet, P merges nothing.  Afterwards both windows contain 150, B
+    answers "inside", P answers "inside" as well although 150 lies in its excluded period — and the
+    next timer run has nothing to refresh (P's own segment reaches beyond now + 24 h), so it stays. -/
+theorem start_order_counterexample :
+    let uB : UpdIn := { prefer := true, own := [(100, 200)], incs := [], excs := [] }
+    let uP0 : UpdIn := { prefer := true, own := [(0, 200000)], incs := [], excs := [[]] }       -- B not started yet: nothing to merge
+    let P1 := ({} : Period).start uP0 0
+    let B1 := ({} : Period).start uB 0
+    let uP1 : UpdIn := { prefer := true, own := [], incs := [], excs := [B1.segs] }
+    P1.isInside 150 = true ∧ B1.isInside 150 = true ∧
+    specRefs (observe {} uP0 0 86400 true []) [] [B1.isInside 150] (150, P1.isInside 150) = some .refsAgree ∧
+    -- and the timer does not repair it while the period's own segments reach further than a day ahead
+    (P1.tick uP1 300).isInside 150 = true := by decide
 
 
 /-! ## Any nesting of includes and excludes -/
